@@ -112,14 +112,14 @@ Base(n) == IF n <= 8 THEN Template(n, Seeds[n]) ELSE IF n = 9 THEN SquarePatch E
 
 \* ------------------------------------------------------------ generator catalogues
 Cat2 == << GTrans(<<5, 0 - 13>>, 0, 0), GTrans(<<0 - 17, 29>>, 0, 1), GTrans(<<23, 4>>, 1, 0),
-           GImage(<<1, 2>>, <<0, 1>>, 3, 0), GImage(<<2, 1>>, <<1, 0>>, 5, 1),
+           GImage(<<1, 2>>, <<0, 1>>, 5, 0), GImage(<<2, 1>>, <<1, 0>>, 7, 1),
            GRelabel(0, 0), GRelabel(1, 2), GRelabel(5, 1),
            GSwap(1, 2), GSwap(2, 3),
            GAxes(<<2, 1>>),
            GRot(<<3, 4>>), GRot(<<0 - 12, 5>>),
            GDil(2, 1), GDil(3, 5) >>
 Cat3 == << GTrans(<<5, 0 - 13, 2>>, 0, 0), GTrans(<<0 - 17, 29, 40>>, 0, 1), GTrans(<<23, 4, 0 - 6>>, 1, 0),
-           GImage(<<1, 2, 1>>, <<0, 1, 2>>, 3, 0), GImage(<<2, 1, 3>>, <<1, 0, 2>>, 5, 1),
+           GImage(<<1, 2, 1>>, <<0, 1, 2>>, 5, 0), GImage(<<2, 1, 3>>, <<1, 0, 2>>, 7, 1),
            GRelabel(0, 0), GRelabel(1, 2), GRelabel(5, 1),
            GSwap(1, 2), GSwap(2, 3),
            GAxes(<<2, 3, 1>>), GAxes(<<2, 1, 3>>), GAxes(<<3, 2, 1>>),
@@ -129,14 +129,14 @@ Cat(d) == IF d = 2 THEN Cat2 ELSE Cat3
 
 \* generic words for real trajectories: lengths in units 1/1000
 TCat2 == << GTrans(<<1234, 0 - 5678>>, 0, 0), GTrans(<<0 - 31415, 27182>>, 0, 1), GTrans(<<40404, 0 - 777>>, 1, 0),
-            GImage(<<1, 2>>, <<0, 1>>, 3, 0), GImage(<<2, 1>>, <<1, 0>>, 5, 1),
+            GImage(<<1, 2>>, <<0, 1>>, 5, 0), GImage(<<2, 1>>, <<1, 0>>, 7, 1),
             GRelabel(0, 0), GRelabel(1, 17), GRelabel(7, 3), GRelabel(11, 5), GRelabel(13, 1),
             GSwap(1, 2), GSwap(2, 3), GSwap(1, 3), GSwap(3, 4),
             GAxes(<<2, 1>>),
             GRot(<<3, 4>>), GRot(<<0 - 12, 5>>), GRot(<<20, 0 - 21>>),
             GDil(2, 1), GDil(3, 5), GDil(7, 4) >>
 TCat3 == << GTrans(<<1234, 0 - 5678, 31415>>, 0, 0), GTrans(<<0 - 31415, 27182, 5>>, 0, 1), GTrans(<<40404, 0 - 777, 9999>>, 1, 0),
-            GImage(<<1, 2, 1>>, <<0, 1, 2>>, 3, 0), GImage(<<2, 1, 3>>, <<1, 0, 2>>, 5, 1),
+            GImage(<<1, 2, 1>>, <<0, 1, 2>>, 5, 0), GImage(<<2, 1, 3>>, <<1, 0, 2>>, 7, 1),
             GRelabel(0, 0), GRelabel(1, 17), GRelabel(7, 3), GRelabel(11, 5), GRelabel(13, 1),
             GSwap(1, 2), GSwap(2, 3), GSwap(1, 3), GSwap(3, 4),
             GAxes(<<2, 3, 1>>), GAxes(<<2, 1, 3>>), GAxes(<<3, 2, 1>>), GAxes(<<1, 3, 2>>),
